@@ -333,10 +333,13 @@ func genC16(r *Rand, tier string, ord int) *Trial {
 	if long {
 		// layout independence includes line width: a sequence on one very long line vs the same wrapped
 		w = r.PickInt(65535, 65536, 65537, 66000)
+		if r.P(0.25) {
+			w = r.PickInt(1048575, 1048576, 1048577, 1100000) // a megabyte on one line (LF and CRLF differ by one byte there)
+		}
 		ref = genRefSeq(r, w)
 		a = genAln(r, ref, alnSpec{W: w, N: 2, Prof: profN, SNP: 0.01, Prefix: "s"})
-		lay = Layout{}
-		if r.P(0.4) {
+		lay = Layout{CRLF: r.P(0.3)}
+		if w < 1000000 && r.P(0.4) {
 			// ... and a header line (ID + description) longer than 64 KiB over short sequences
 			w = r.Range(4, 40)
 			ref = genRefSeq(r, w)
@@ -352,6 +355,9 @@ func genC16(r *Rand, tier string, ord int) *Trial {
 		if long {
 			t.Kind = "valid-long-line"
 			lay2 = Layout{Width: 60}
+			if w > 1000000 {
+				lay2.Width = 8192 // (the plain-text reader concatenates line by line: quadratic in the number of lines)
+			}
 		}
 		lay2.Desc, lay2.Sep, lay2.Lead, lay2.LongDesc = lay.Desc, lay.Sep, lay.Lead, lay.LongDesc
 		t.Case = Case{Cmd: "readers", Files: map[string]string{"fasta": text, "fasta2": a.FASTA(lay2)}}
@@ -408,6 +414,9 @@ func checkC16(t *Trial, ctx *Ctx) *Failure {
 			}
 			if t.Kind == "valid-long-line" && (i == 5 || i == 6 || i == 7 || i == 9) {
 				continue // gofasta's own Decode/Degap are quadratic in the row length: keep the expensive trials few
+			}
+			if t.Kind == "valid-long-line" && i >= 8 && len(seqs[0]) > 1000000 {
+				continue // (a megabyte row through variants' Decode/Degap would take minutes)
 			}
 			if i >= 8 {
 				// the fifth scanner: variants' reference finder must accept the file and find the last record
@@ -515,7 +524,7 @@ func checkC16(t *Trial, ctx *Ctx) *Failure {
 // mustReject is the part of "strict" that can be decided from the bytes alone, stated independently of the
 // readers: the stream starts with a header line, and either a sequence line holds a byte that is not an
 // IUPAC nucleotide code, '-' or '?' (a CR directly before the LF belongs to the line end), or there are at
-// least two records, none of them empty, of different lengths. It returns the reason, or "" when the
+// least two records of different lengths. It returns the reason, or "" when the
 // stream is valid or its status is not settled by these two rules.
 func mustReject(stream string) string {
 	if !strings.HasPrefix(stream, ">") {
@@ -535,14 +544,9 @@ func mustReject(stream string) string {
 		}
 		lens[len(lens)-1] += len(l)
 	}
-	for _, n := range lens {
-		if n == 0 {
-			return ""
-		}
-	}
 	for _, n := range lens[1:] {
 		if n != lens[0] {
-			return "records of different lengths"
+			return "records of different lengths (a header without sequence is a record of length 0)"
 		}
 	}
 	return ""
